@@ -12,7 +12,7 @@ try:
     subprocess.run("git -C %s apply %spatch.diff" % (wt, d), shell=True, check=True)
     meta = json.load(open(d + "meta.json"))
     for c in checks:
-        p = subprocess.run("VERIF_FROZEN=1 VERIF_REPO=%s ./check %s quick" % (wt, c), shell=True, cwd="/verif", stdout=subprocess.PIPE, stderr=subprocess.STDOUT)
+        p = subprocess.run("VERIF_FROZEN=1 VERIF_REPO=%s ./check %s quick" % (wt, c), shell=True, cwd=os.environ.get("VERIF_ROOT", "/verif"), stdout=subprocess.PIPE, stderr=subprocess.STDOUT)
         out = p.stdout.decode("utf-8", "replace")
         v = [l for l in out.split("\n") if l.startswith("VIOLATION")]
         old = meta.setdefault("checks_run", {}).get(c)
